@@ -250,6 +250,13 @@ func (m *Model) Run(hist []string) *proto.Result {
 			res.Err = fmt.Sprintf("event %d %s not enabled on replay", i, ev)
 			return res
 		}
+		if len(w.Panics) > 0 {
+			// the follower or a background step died (panic / left suspended): the real process
+			// would be gone and a panic inside a write transaction leaves the writer mutex locked
+			res.Viol = append(res.Viol, w.Panics...)
+			res.Outcome = "died"
+			return res
+		}
 		if ev == "k.rm" && !crashed {
 			removeAcked = true
 		}
